@@ -147,6 +147,8 @@ pub enum Op {
 	Probe { node: usize, chan: usize, kind: ProbeKind },
 	ClaimHeld { pay: usize },
 	FailHeld { pay: usize },
+	/// Send payment number `pay` again with the same payment id over `hops`, if the sender still lists it as pending.
+	Resend { pay: usize, hops: Vec<(usize, usize)> },
 }
 
 #[derive(Clone, Copy, Debug, PartialEq, Eq)]
@@ -501,6 +503,31 @@ impl WorldSys {
 					self.w.payments[pay].claimed_by_recipient = true;
 				}
 				self.w.pump();
+			},
+			Op::Resend { pay, hops } => {
+				use lightning::ln::channelmanager::RecentPaymentDetails;
+				if pay >= self.w.payments.len() {
+					self.w.obs.push(Obs::Api { node: 0, what: "resend-skipped".into(), ok: true, detail: "not sent yet".into() });
+				} else {
+					let p = self.w.payments[pay].clone();
+					let listed_pending = self.w.nodes[p.from].cm.list_recent_payments().iter().any(|r| matches!(r, RecentPaymentDetails::Pending { payment_id, .. } if *payment_id == p.id));
+					if !listed_pending {
+						self.w.obs.push(Obs::Api { node: p.from, what: "resend-skipped".into(), ok: true, detail: "not listed as pending".into() });
+					} else {
+						let hops: Vec<(usize, ChannelId)> = hops.iter().map(|(n, c)| (*n, self.chans[*c])).collect();
+						let ok = self.w.send_raw(
+							p.from,
+							&hops,
+							p.amount_msat,
+							p.hash,
+							lightning::ln::outbound_payment::RecipientOnionFields::secret_only(p.secret, p.amount_msat),
+							p.id,
+							100,
+						);
+						self.w.obs.push(Obs::Api { node: p.from, what: "resend-while-pending".into(), ok, detail: String::new() });
+						crate::runner::witness("c03-resend-while-pending-tried");
+					}
+				}
 			},
 			Op::FailHeld { pay } => {
 				let (to, hash) = (self.w.payments[pay].to, self.w.payments[pay].hash);
